@@ -436,6 +436,11 @@ def run_case(spec, ctx):
             elif choice == 2:
                 del base["vars"]["insights_signature_exclude"]
                 what = "missing-exclusion-list"
+            elif choice == 3 and rng.random() < 0.5:
+                # a two-level request whose parent exists in the play but is neither hosts nor vars
+                base["environment"] = {"HTTP_PROXY": "http://proxy", "other": 1}
+                base["vars"]["insights_signature_exclude"] = rng.choice(["/hosts,/environment/HTTP_PROXY", "/environment/other", "environment/HTTP_PROXY,/vars/insights_signature"])
+                what = "exclusion-of-child-of-other-mapping"
             elif choice == 3:
                 base["vars"]["insights_signature_exclude"] = rng.choice(["/tasks", "/hosts,/name", "/vars/a/b", "/hosts,/", "/vars/insights_signature,/when", "tasks/0", "/hosts/x/y"])
                 what = "exclusion-outside-hosts-vars"
